@@ -9,7 +9,8 @@
    that the second-pass theorem needs are explicit hypotheses (validated by
    the check on generated inputs, not proved). *)
 From Coq Require Import String.
-From YQ Require Import Base.Str Model.YamlBridge Proofs.YamlBridgeProofs.
+From YQ Require Import Base.Str Model.Printer Model.Stream Spec.StreamSpec Model.YamlBridge Proofs.YamlBridgeProofs
+                       Model.YamlStream Proofs.YamlStreamProofs.
 
 (* Conversion: for every node tree yaml.v3 can build (ywf), UnmarshalYAML
    followed by MarshalYAML returns the same tree on every field - kind, style,
@@ -76,6 +77,55 @@ Theorem C05_second_pass_fixed_partial :
   yq_pass yparse yemit (render hs ++ body) = Some o /\ yq_pass yparse yemit o = Some o.
 Proof. exact second_pass_fixed. Qed.
 Print Assumptions C05_second_pass_fixed_partial.
+
+(* ---------------------------------------------------------------- *)
+(* streams of any number of documents: the stream evaluator and the   *)
+(* printer's separator logic are C10's model (Model/Stream.v,          *)
+(* Model/Printer.v), instantiated with the identity expression         *)
+(* ---------------------------------------------------------------- *)
+
+(* The identity on a stream: the header block comes back byte for byte, then
+   the documents as the library emits them, one separator line between two
+   documents and nowhere else. *)
+Theorem C05_stream_identity :
+  forall (yparse : str -> option (list ynode)) (yemit : ynode -> str) hs body c0 cs,
+  Forall (fun h => hline_ok h = true) hs -> body_ok body = true ->
+  read_stream yparse body = Some (c0 :: cs) ->
+  yq_stream yparse yemit (render hs ++ body) = Some (render hs ++ join_docs (map (emit_doc yemit) (c0 :: cs))).
+Proof. exact stream_pass. Qed.
+Print Assumptions C05_stream_identity.
+
+(* N documents in, N documents out, no error: the printer is asked to print
+   exactly one node per document the library found. *)
+Theorem C05_doc_count :
+  forall (yparse : str -> option (list ynode)) hs body c0 cs,
+  Forall (fun h => hline_ok h = true) hs -> body_ok body = true ->
+  read_stream yparse body = Some (c0 :: cs) ->
+  let '(lead, rest) := process_read_stream (render hs ++ body) in
+  exists cs', read_stream yparse rest = Some cs' /\
+    count_res (fst (stream_events lead cs')) = length cs' /\ snd (stream_events lead cs') = Done.
+Proof. exact stream_doc_count. Qed.
+Print Assumptions C05_doc_count.
+
+(* Second pass, any number of documents, any header block: if the stream the
+   library emits for these documents (joined by the separator) does not begin
+   with header-shaped lines (H_body) and reads back, document by document, to
+   candidates that are emitted identically (H_reread), then yq's output is a
+   fixed point of yq.  The two library facts are premises, validated by the
+   check on every run. *)
+Theorem C05_second_pass_fixed :
+  forall (yparse : str -> option (list ynode)) (yemit : ynode -> str) (good : list cnode -> Prop),
+  (forall cs, good cs -> body_ok (join_docs (map (emit_doc yemit) cs)) = true) ->
+  (forall cs, good cs ->
+     exists cs', read_stream yparse (join_docs (map (emit_doc yemit) cs)) = Some cs'
+                 /\ map (emit_doc yemit) cs' = map (emit_doc yemit) cs) ->
+  forall hs body c0 cs,
+  Forall (fun h => hline_ok h = true) hs -> body_ok body = true ->
+  read_stream yparse body = Some (c0 :: cs) -> good (c0 :: cs) ->
+  let o := (render hs ++ join_docs (map (emit_doc yemit) (c0 :: cs)))%list in
+  yq_stream yparse yemit (render hs ++ body) = Some o /\ yq_stream yparse yemit o = Some o.
+Proof. exact stream_second_pass_fixed. Qed.
+Print Assumptions C05_second_pass_fixed.
 
 (* A white-space-only line kept as leading content is printed back as it is
    (it used to get a comment prefix). *)
